@@ -32,6 +32,7 @@ type index interface {
 	Exists(col uint64) bool
 	Card() uint64
 	Clear(cols []uint64)
+	ClearRange(lo, hi uint64) // ClearValues with a found-set built by AddRange (a run container), columns lo..hi inclusive
 	Retain(cols []uint64) (uint64, bool) // 64 only
 	ParOr(workers int, others ...index)
 	Increment(cols []uint64) // nil = IncrementAll
@@ -70,6 +71,12 @@ func (x idx64) GetInt(c uint64) (int64, bool)       { return x.b.GetValue(c) }
 func (x idx64) Exists(c uint64) bool                { return x.b.ValueExists(c) }
 func (x idx64) Card() uint64                        { return x.b.GetCardinality() }
 func (x idx64) Clear(cols []uint64)                 { x.b.ClearValues(bm64(cols)) }
+func (x idx64) ClearRange(lo, hi uint64) {
+	f := roaring64.New()
+	f.AddRange(lo, hi+1)
+	f.RunOptimize()
+	x.b.ClearValues(f)
+}
 func (x idx64) Retain(cols []uint64) (uint64, bool) { return x.b.Retain(bm64(cols)), true }
 func (x idx64) ParOr(w int, others ...index) {
 	os := make([]*roaring64.BSI, len(others))
@@ -93,7 +100,7 @@ func (x idx64) MarshalRoundTrip() (index, error) {
 	if err != nil {
 		return nil, err
 	}
-	n := roaring64.NewDefaultBSI()
+	n := receiver64()
 	if err := n.UnmarshalBinary(data); err != nil {
 		return nil, err
 	}
@@ -108,7 +115,7 @@ func (x idx64) StreamRoundTrip() (index, error, bool) {
 	if int(wn) != buf.Len() {
 		return nil, fmt.Errorf("WriteTo returned %d, wrote %d bytes", wn, buf.Len()), true
 	}
-	n := roaring64.NewDefaultBSI()
+	n := receiver64()
 	rn, err := n.ReadFrom(bytes.NewReader(buf.Bytes()))
 	if err != nil {
 		return nil, err, true
@@ -221,6 +228,12 @@ func (x idx32) GetInt(c uint64) (int64, bool)       { return x.b.GetValue(c) }
 func (x idx32) Exists(c uint64) bool                { return x.b.ValueExists(c) }
 func (x idx32) Card() uint64                        { return x.b.GetCardinality() }
 func (x idx32) Clear(cols []uint64)                 { x.b.ClearValues(bm32(cols)) }
+func (x idx32) ClearRange(lo, hi uint64) {
+	f := roaring.New()
+	f.AddRange(lo, hi+1)
+	f.RunOptimize()
+	x.b.ClearValues(f)
+}
 func (x idx32) Retain(cols []uint64) (uint64, bool) { return 0, false }
 func (x idx32) ParOr(w int, others ...index) {
 	os := make([]*bsi32.BSI, len(others))
@@ -245,6 +258,13 @@ func (x idx32) MarshalRoundTrip() (index, error) {
 		return nil, err
 	}
 	n := bsi32.NewDefaultBSI()
+	switch usedReceiver {
+	case 1:
+		n.SetValue(3, 1<<50)
+		n.SetValue(70000, 12345)
+	case 2:
+		n.SetValue(9, 1)
+	}
 	if err := n.UnmarshalBinary(data); err != nil {
 		return nil, err
 	}
@@ -310,6 +330,22 @@ func (x idx32) MutateResults(w int, vals []int64) {
 
 var cols32 = []uint64{0, 1, 2, 3, 65535, 65536, 65537, 70000, 131072, 1 << 31, 1<<32 - 2, 1<<32 - 1}
 var cols64extra = []uint64{1 << 32, 1<<32 + 1, 1<<32 + 65536, 2 << 32, 2<<32 + 9, 3<<32 + 1, 5 << 32, 5<<32 + 70000, 7 << 32, 1 << 40, 1<<40 + 1, 1<<63 + 5, 1<<64 - 1}
+
+// usedReceiver selects what the decoding round trips read into: 0 a fresh index, 1 an index that holds
+// wide (and negative) values on other columns, 2 an index that holds one small value. Set by the property.
+var usedReceiver int
+
+func receiver64() *roaring64.BSI {
+	n := roaring64.NewDefaultBSI()
+	switch usedReceiver {
+	case 1:
+		n.SetValue(3, -(1 << 50))
+		n.SetValue(1<<40+7, 12345)
+	case 2:
+		n.SetValue(9, 1)
+	}
+	return n
+}
 
 func universe(is64 bool) []uint64 {
 	if is64 {
